@@ -94,19 +94,21 @@ object_t *master_ob = 0;
 #define find_value(num) (&current_object->variables[num])
 
 void process_efun_callback (int narg, function_to_call_t * ftc, int f) {
-  svalue_t *arg = sp - st_num_arg + 1 + narg;
+  /* find_or_load_object() below can run LPC (create()), whose efun calls overwrite st_num_arg */
+  int num_arg = st_num_arg;
+  svalue_t *arg = sp - num_arg + 1 + narg;
 
   if (arg->type == T_FUNCTION)
     {
       ftc->f.fp = arg->u.fp;
       ftc->ob = 0;
-      ftc->narg = st_num_arg - narg - 1;
+      ftc->narg = num_arg - narg - 1;
       ftc->args = arg + 1;
     }
   else
     {
       ftc->f.str = arg->u.string;
-      if (st_num_arg < narg + 2)
+      if (num_arg < narg + 2)
         {
           ftc->ob = current_object;
           ftc->narg = 0;
@@ -126,7 +128,7 @@ void process_efun_callback (int narg, function_to_call_t * ftc, int f) {
           else
             bad_argument (arg + 1, T_STRING | T_OBJECT, 3, f);
 
-          ftc->narg = st_num_arg - narg - 2;
+          ftc->narg = num_arg - narg - 2;
           ftc->args = arg + 2;
 
           if (ftc->ob->flags & O_DESTRUCTED)
